@@ -257,7 +257,7 @@ func c12Exhaustive(c *Ctx) {
 }
 
 func c12Random(c *Ctx) {
-	n := c.N(1500, 30000)
+	n := c.N(2500, 120000)
 	for i := 0; i < n; i++ {
 		c.Case(int64(i), func(k *K) {
 			r := k.Rand()
